@@ -323,6 +323,10 @@ func equal(lhsV, rhsV reflect.Value) bool {
 // stringToNumber converts a string formatted as a number to an int64 value
 // if it is formatted as an integer, otherwise to a float64 value, e.g. "1.2".
 func stringToNumber(v reflect.Value) (reflect.Value, error) {
+	if !isDecimalNumeral(v.String()) {
+		// strconv also reads hexadecimal floats, digit separators, "Inf" and "NaN"
+		return v, errors.New("not a decimal numeral")
+	}
 	i, err := tryToInt64(v)
 	if err == nil {
 		return reflect.ValueOf(i), nil
@@ -332,6 +336,45 @@ func stringToNumber(v reflect.Value) (reflect.Value, error) {
 		return v, err
 	}
 	return reflect.ValueOf(f), nil
+}
+
+// isDecimalNumeral reports whether s is written as a decimal number: an optional sign,
+// digits with an optional fraction, an optional exponent.
+func isDecimalNumeral(s string) bool {
+	i := 0
+	if i < len(s) && (s[i] == '+' || s[i] == '-') {
+		i++
+	}
+	digits := 0
+	for i < len(s) && s[i] >= '0' && s[i] <= '9' {
+		i++
+		digits++
+	}
+	if i < len(s) && s[i] == '.' {
+		i++
+		for i < len(s) && s[i] >= '0' && s[i] <= '9' {
+			i++
+			digits++
+		}
+	}
+	if digits == 0 {
+		return false
+	}
+	if i < len(s) && (s[i] == 'e' || s[i] == 'E') {
+		i++
+		if i < len(s) && (s[i] == '+' || s[i] == '-') {
+			i++
+		}
+		digits = 0
+		for i < len(s) && s[i] >= '0' && s[i] <= '9' {
+			i++
+			digits++
+		}
+		if digits == 0 {
+			return false
+		}
+	}
+	return i == len(s)
 }
 
 // isHashable returns true if the value can be used as a map key without
